@@ -12,7 +12,8 @@ Record cver := mkCV {
   c_root : N * N; c_leaf_base : N; c_tile_base : N;
   c_dirs : dir_table; c_file : bytes;
   c_meta_off : N; c_meta_len : N;                     (* metadata section of the header *)
-  c_metabody : bytes; c_jsonbody : bytes }.           (* what /name/metadata and /name.json answer for this version alone *)
+  c_metabody : bytes; c_jsonbody : bytes;             (* what /name/metadata and /name.json answer for this version alone *)
+  c_hdrs : bytes }.                                   (* Content-Type|Content-Encoding of a tile of this version (from ITS tile type and compression) *)
 
 Definition c_lookup (v:cver) (o l id:N) : look :=
   match lookup_dir (c_dirs v) o l with
@@ -184,6 +185,12 @@ Definition macro (x:xstate) (m:mstep) : option xstate :=
   end).
 
 (* responses as the HTTP client sees them: status and body *)
+(* the content headers sent with a 200: those of the version that answered *)
+Definition resp_headers (q:treq) (r:resp) : bytes :=
+  match r with
+  | R200 v _ _ => if t_kind q =? 0 then c_hdrs v else [97;112;112;108;105;99;97;116;105;111;110;47;106;115;111;110;124]   (* "application/json|" *)
+  | _ => []
+  end.
 Definition status_body (q:treq) (r:resp) : N * bytes :=
   match r with
   | R200 v o l => (200, if t_kind q =? 0 then slice (c_file v) o l else if t_kind q =? 1 then c_metabody v else c_jsonbody v)
